@@ -360,8 +360,18 @@ def main():
         for fl in fls:
             build_lib(fl)
         import concurrent.futures as cf
+
+        def one(p):
+            # a harness that does not compile must not stop the others: its own quick_cmd will report it (exit 2)
+            try:
+                build_harness(p, CHECKS[p].get("flavour", "rel"))
+                return None
+            except SystemExit:
+                return p
         with cf.ThreadPoolExecutor(8) as ex:
-            list(ex.map(lambda p: build_harness(p, CHECKS[p].get("flavour", "rel")), CHECKS))
+            bad = [p for p in ex.map(one, CHECKS) if p]
+        if bad:
+            log("[vf] setup: harnesses that did not build:", bad)
         return 0
     if cmd == "run":
         pid = sys.argv[2]
